@@ -1,6 +1,7 @@
 """Tripwire objects for C03: every user-definable hook appends to a journal and notes whether a
 frame of the monkeytype package was on the stack at that moment (i.e. the TRACER executed user code).
 This module is untraced."""
+import collections
 import os
 import sys
 
@@ -53,6 +54,16 @@ class TGetAttr:
     def __getattr__(self, name):
         note("__getattr__")
         raise AttributeError(name)
+
+    def __call__(self, *a):
+        return None
+
+
+class TGetAttrRaises:
+    """Attribute lookup on this object fails with something that is not an AttributeError."""
+    def __getattr__(self, name):
+        note("__getattr__(raises)")
+        raise RuntimeError("attribute hook failed: " + name)
 
     def __call__(self, *a):
         return None
@@ -156,6 +167,32 @@ class TSet(set):
         return set.__contains__(self, x)
 
 
+class TDefaultDict(collections.defaultdict):
+    def keys(self):
+        note("defaultdict.keys")
+        return collections.defaultdict.keys(self)
+
+    def items(self):
+        note("defaultdict.items")
+        return collections.defaultdict.items(self)
+
+    def values(self):
+        note("defaultdict.values")
+        return collections.defaultdict.values(self)
+
+    def __iter__(self):
+        note("defaultdict.__iter__")
+        return collections.defaultdict.__iter__(self)
+
+    def __len__(self):
+        note("defaultdict.__len__")
+        return collections.defaultdict.__len__(self)
+
+    def __missing__(self, key):
+        note("defaultdict.__missing__")
+        return collections.defaultdict.__missing__(self, key)
+
+
 class TTuple(tuple):
     def __iter__(self):
         note("tuple.__iter__")
@@ -249,6 +286,7 @@ class TRaisingClass:
 MAKERS = {
     "getattribute": TGetAttribute, "getattr": TGetAttr, "class_prop": TClassProp, "descriptor": TDescriptor,
     "lazy_property": TLazyProperty, "list_sub": lambda: TList([1, 2]), "dict_sub": lambda: TDict(a=1),
-    "set_sub": lambda: TSet([1]), "tuple_sub": lambda: TTuple((1, 2)), "hash_eq": THashEq, "bool": TBool,
+    "set_sub": lambda: TSet([1]), "tuple_sub": lambda: TTuple((1, 2)),
+    "defaultdict_sub": lambda: TDefaultDict(int, a=1), "getattr_raises": TGetAttrRaises, "hash_eq": THashEq, "bool": TBool,
     "repr": TRepr, "meta_class": make_meta_class, "meta_instance": make_meta_instance,
 }
